@@ -359,6 +359,12 @@ def execute(schedule, ctx):
             cbA, cbB = probes.get_ctl(A).callbacks, probes.get_ctl(B).callbacks
             if entry != 'solve' and not respec and _cls(oA) == _cls(oB):
                 chk('interference/callback-outcomes', cbA == cbB, {'traced': cbA[:6], 'untraced': cbB[:6]})
+        if spec['kind'] == 'parser':
+            # equations built from a script fault arithmetically or not at all (with or without tracing)
+            for r_ in probes.get_ctl(A).log:
+                if r_['hook'] == 'eval':
+                    ok_ = r_['exc'] in (None, 'RuntimeWarning', 'FloatingPointError', 'ZeroDivisionError', 'OverflowError', 'SimInterrupt') or (r_['exc'] == 'IndexError' and S.shorter_than_script(spec))
+                    chk('pass/generated-code-raised-a-non-arithmetic-exception', ok_, {'exc': r_['exc']})
         S.count_faults(ctx, probes.get_ctl(B).log, opts)
         ctx.count('passes', sum(1 for r in probes.get_ctl(A).log if r['hook'] == 'eval'))
         ctx.count('steps', len(probes.get_ctl(A).log))
